@@ -44,6 +44,8 @@ CONSTANTS
   WillDelay,     \* sessions carry a delayed will (timer goroutine started in unregisterClient)
   ApiCalls,      \* number of administrative calls
   PeerMayStall,  \* peers may stop reading
+  WithStop,      \* Stop may be called
+  PeerMayClose,  \* peers may close their socket at any time
   PeerReads,     \* peers read what the broker sends (FALSE: they never do, from the start)
   TrackOwed,     \* count the requests a peer is waiting for (only needed for Responsive)
   Ops,           \* record extracted from the source, see conn_lib.py
@@ -70,8 +72,8 @@ GErrConnack  == Ops.errconnack_send_guard
 GWrite       == Ops.write_guard
 WLoopClose   == Ops.writeloop_select_close
 HsTimeout    == Ops.hs_select_timeout
-SetErrWrites == Ops.seterror_write_in_once
-SetErrNonBlk == "seterror_blocks_in_once" \in Dev        \* as repaired: the DISCONNECT is offered, never waited for
+SetErrWrites == Ops.seterror_write_in_once \/ Ops.seterror_offer_in_once
+SetErrNonBlk == Ops.seterror_offer_in_once \/ "seterror_blocks_in_once" \in Dev        \* as repaired: the DISCONNECT is offered, never waited for
 CloseUnreg   == Ops.hsfail_closes_sock \/ "unregistered_not_closed" \in Dev   \* as repaired: failed handshake closes the socket ...
 StopAll      == Ops.stop_tracks_all \/ "unregistered_not_closed" \in Dev      \* ... and Stop closes and awaits every accepted connection
 CloseOnErr   == Ops.writeloop_exit_closes_sock \/ "no_close_after_error" \in Dev    \* as repaired: writeLoop closes the socket whenever it returns
@@ -333,7 +335,7 @@ process (peer \in PrIds)
 {
 e0: either { await listenerOpen; accepted[C(self)] := "yes"; live[C(self)] := {"serve", "read", "write"} }
     or     { await ~listenerOpen; accepted[C(self)] := "refused"; spawnPH[C(self)] := "no"; goto Done };
-e1: while (~peerClosed[C(self)]) {
+e1: while (~peerClosed[C(self)] /\ ~srvClosed[C(self)]) {      \* (once the broker has closed the socket the peer is done)
       either { await sent[C(self)] < Budget /\ ~srvClosed[C(self)] /\ c2s[C(self)] = "none";
                with (kd \in IF sent[C(self)] = 0 THEN FirstKinds ELSE RestKinds) {
                  c2s[C(self)] := kd;
@@ -342,7 +344,7 @@ e1: while (~peerClosed[C(self)]) {
                };
                sent[C(self)] := sent[C(self)] + 1 }
       or     { await peerReading[C(self)] /\ PeerMayStall; peerReading[C(self)] := FALSE }
-      or     { peerClosed[C(self)] := TRUE }
+      or     { await PeerMayClose; peerClosed[C(self)] := TRUE }
     }
 }
 
@@ -350,7 +352,8 @@ e1: while (~peerClosed[C(self)]) {
 fair process (stop = 1)
 variable snap = {};
 {
-st0:- stopCalled := TRUE; listenerOpen := FALSE;               \* exit(); listeners closed
+st0:- await WithStop;
+     stopCalled := TRUE; listenerOpen := FALSE;               \* exit(); listeners closed
 st1: await mu = 0;                                             \* srv.mu: c.Close() for every registered client
      snap := IF StopAll THEN {k \in K : accepted[k] = "yes" /\ ~closedCh[k]} ELSE {k \in K : registered[k]};
      srvClosed := [k \in K |-> srvClosed[k] \/ k \in snap];
@@ -1189,7 +1192,7 @@ e0(self) == /\ pc[self] = "e0"
                             hp, hok, old, pk, snap, n >>
 
 e1(self) == /\ pc[self] = "e1"
-            /\ IF ~peerClosed[C(self)]
+            /\ IF ~peerClosed[C(self)] /\ ~srvClosed[C(self)]
                   THEN /\ \/ /\ sent[C(self)] < Budget /\ ~srvClosed[C(self)] /\ c2s[C(self)] = "none"
                              /\ \E kd \in IF sent[C(self)] = 0 THEN FirstKinds ELSE RestKinds:
                                   /\ c2s' = [c2s EXCEPT ![C(self)] = kd]
@@ -1206,7 +1209,8 @@ e1(self) == /\ pc[self] = "e1"
                           \/ /\ peerReading[C(self)] /\ PeerMayStall
                              /\ peerReading' = [peerReading EXCEPT ![C(self)] = FALSE]
                              /\ UNCHANGED <<c2s, sent, owed, after, peerClosed>>
-                          \/ /\ peerClosed' = [peerClosed EXCEPT ![C(self)] = TRUE]
+                          \/ /\ PeerMayClose
+                             /\ peerClosed' = [peerClosed EXCEPT ![C(self)] = TRUE]
                              /\ UNCHANGED <<c2s, sent, owed, after, peerReading>>
                        /\ pc' = [pc EXCEPT ![self] = "e1"]
                   ELSE /\ pc' = [pc EXCEPT ![self] = "Done"]
@@ -1222,6 +1226,7 @@ e1(self) == /\ pc[self] = "e1"
 peer(self) == e0(self) \/ e1(self)
 
 st0 == /\ pc[1] = "st0"
+       /\ WithStop
        /\ stopCalled' = TRUE
        /\ listenerOpen' = FALSE
        /\ pc' = [pc EXCEPT ![1] = "st1"]
